@@ -1,6 +1,6 @@
 import Cpppo.Proofs.ClientPipeline
 import Cpppo.Proofs.ClientPath
-import Cpppo.Model.ClientOps
+import Cpppo.Proofs.ClientOps
 import Cpppo.Generated.Tables
 
 /-!
@@ -195,6 +195,57 @@ theorem format_parse_path (body : List Seg) (hwf : WFPath body) (elem count : Op
   | symbolic n ms hok => exact format_parse_symbolic n ms hok elem count hc
   | numeric c rest hr => exact format_parse_numeric c rest hr elem count hc
 
+/-! ## grammar: an operation text denotes the operation it spells -/
+
+/-- the type table extracted from the live `client.CIP_TYPES` -/
+def liveTypes : List CipType :=
+  Generated.clientCipTypes.map fun (n, tt, sz, k, lo, hi) =>
+    { name := n.toList, tagType := tt, size := sz,
+      kind := if k = 0 then Kind.str else if k = 1 then Kind.bool else if k = 2 then Kind.real
+              else Kind.int lo hi }
+
+/-- **A textual operation description denotes exactly the operation it spells**: for every path
+(symbolic tag levels or numeric class/instance/attribute), element index, range or `*count`, byte
+offset, and `=(TYPE)v,v,...` list of in-range integers of a type of the table (with consistent
+counts: `OpSpec.Ok`), `parse_operations` yields the operation with that path, element segment, count,
+offset, tag type and data. -/
+theorem parse_operation_spells (types : List CipType) (fragment : Bool) (intType : Str) (s : OpSpec)
+    (hs : s.Ok types fragment intType) :
+    parseOperation types fragment intType s.text = Except.ok (s.denote fragment) :=
+  parseOperation_spells types fragment intType s hs
+
+/-- every integer type of the live table can be written by name (the hypotheses of `WriteSpec.Ok`
+about the type hold for all of them) -/
+theorem live_int_types_nameable :
+    ∀ t ∈ liveTypes, (∃ lo hi, t.kind = Kind.int lo hi) →
+      lookupType liveTypes t.name = some t ∧ upper t.name = t.name ∧ ∀ c ∈ t.name, isAlnum c = true := by
+  have h : ∀ t ∈ liveTypes,
+      lookupType liveTypes t.name = some t ∧ upper t.name = t.name ∧ ∀ c ∈ t.name, isAlnum c = true := by
+    decide
+  exact fun t ht _ => h t ht
+
+/-- `get_attribute.attribute_operations` chooses the service from the last path segment -/
+theorem attribute_method_of_path (op : OpD) (segs : List Seg) (k : Str) (v : Int)
+    (hp : op.path = segs ++ [Seg.dict [(k, v)]]) :
+    attributeMethod op =
+      if k = kInstance then (if op.data.isSome then Except.error Err.reject else Except.ok AttrMethod.getAll)
+      else if k = kSymbolic ∨ k = kAttribute ∨ k = kElement then
+        Except.ok (if op.data.isSome then AttrMethod.setSingle else AttrMethod.getSingle)
+      else Except.error Err.reject := by
+  unfold attributeMethod
+  rw [hp]
+  simp only [List.getLast?_append, List.getLast?_singleton, Option.some_or, hasKey, List.any_cons,
+    List.any_nil, Bool.or_false, beq_iff_eq]
+  by_cases h1 : k = kInstance
+  · subst h1; simp [pure, Except.pure, throw, throwThe, MonadExceptOf.throw]
+  · by_cases h2 : k = kSymbolic
+    · subst h2; simp [pure, Except.pure, kSymbolic, kInstance]
+    · by_cases h3 : k = kAttribute
+      · subst h3; simp [pure, Except.pure, kAttribute, kInstance]
+      · by_cases h4 : k = kElement
+        · subst h4; simp [pure, Except.pure, kElement, kInstance]
+        · simp [h1, h2, h3, h4, throw, throwThe, MonadExceptOf.throw]
+
 /-! ## non-vacuity, witnesses -/
 
 section Examples
@@ -240,6 +291,51 @@ theorem interleaved_element_not_preserved :
     ∧ (parsePathElements "A.B[1]".toList).toOption
         = some ([Seg.sym "A".toList, Seg.sym "B".toList, elemSeg 1], some 1, none) := by
   decide
+
+def tDINT : CipType := { name := "DINT".toList, tagType := 196, size := 4, kind := Kind.int (-2147483648) 4294967295 }
+
+/-- the docstring's `TAG[4-7]=1,2,3,4`, with a cast and a negative value -/
+def exWrite : OpSpec :=
+  { body := PathBody.symbolic "TAG".toList [], place := { elem := some 4, count := some 4 },
+    write := some { ty := tDINT, lo := -2147483648, hi := 4294967295, vals := [1, -2, 3, 4] } }
+
+example : exWrite.text = "TAG[4-7]=(DINT)1,-2,3,4".toList := by decide
+
+theorem exWrite_ok : exWrite.Ok liveTypes false "INT".toList := by
+  refine ⟨by decide, by decide, ?_⟩
+  intro w hw
+  simp only [exWrite, Option.some.injEq] at hw
+  subst hw
+  refine ⟨by decide, by decide, by decide, by decide, by decide, by decide, ?_⟩
+  rw [if_pos (by decide)]
+  decide
+
+example : parseOperation liveTypes false "INT".toList "TAG[4-7]=(DINT)1,-2,3,4".toList
+    = Except.ok { write := true, offset := none, path := [Seg.sym "TAG".toList, elemSeg 4],
+                  elements := some 4, tagType := some 196,
+                  data := some [Val.int 1, Val.int (-2), Val.int 3, Val.int 4] } :=
+  parse_operation_spells liveTypes false "INT".toList exWrite exWrite_ok
+
+/-- a fragmented write at a byte offset: `@0x0099/1/2[0-3]+8=(DINT)7,8` (elements 2..3 of 4) -/
+def exFrag : OpSpec :=
+  { body := PathBody.numeric 0x99 [1, 2], place := { elem := some 0, count := some 4 }, offset := some 8,
+    write := some { ty := tDINT, lo := -2147483648, hi := 4294967295, vals := [7, 8] } }
+
+example : exFrag.text = "@0x0099/1/2[0-3]+8=(DINT)7,8".toList := by decide
+
+example : exFrag.Ok liveTypes true "INT".toList := by
+  refine ⟨by decide, by decide, ?_⟩
+  intro w hw
+  simp only [exFrag, Option.some.injEq] at hw
+  subst hw
+  refine ⟨by decide, by decide, by decide, by decide, by decide, by decide, ?_⟩
+  rw [if_neg (by decide)]
+  exact ⟨4, by decide, by decide, by decide, by decide⟩
+
+/-- a read with a `*count`: `Tag.Sub[3]*5` -/
+example : ({ body := PathBody.symbolic "Tag".toList ["Sub".toList],
+             place := { elem := some 3, count := some 5, star := true } } : OpSpec).text
+    = "Tag.Sub[3]*5".toList := by decide
 
 end Examples
 
